@@ -49,7 +49,7 @@ def execute(case):
         out.setdefault(k, d)
     empty = {"rank0": 0, "root": {"k": "F", "e": []}, "ranks": []}
     out.update({"exc": "ok", "shapes": [shape] * depth, "res": empty, "res2": empty, "eq": 0, "did2": 0, "nest": "", "post": {},
-                "empty": 0 if case["tree"]["e"] else 1})
+                "empty": 0 if case["tree"]["e"] else 1, "active_ok": 1})
     try:
         t = proj.build_tensor(case["tree"], IDS[:depth], shape=[shape] * depth if case.get("declshape", 1) else None)
         if case.get("fmts"):
@@ -107,6 +107,20 @@ def execute(case):
             r = sp.flattenRanks(depth=d, levels=1, **kw)
             out["res"] = pj(r)
             out["eq"] = 1 if (((r.getRoot() if via == "tensor" else r) == t.getRoot())) else 0     # rank ids differ after split+flatten; compare trees
+        elif op == "splitswizzle":
+            # the tiling idiom: split rank d uniformly, then move the lower part above the upper one, and back
+            sp = t.splitUniform(out["step"], depth=d)
+            ids = list(sp.getRankIds())
+            new_ids = ids[:d] + [ids[d + 1], ids[d]] + ids[d + 2:]
+            r = sp.swizzleRanks(new_ids)
+            r2 = r.swizzleRanks(ids)
+            out["res"], out["res2"], out["eq"], out["did2"] = pj(r), pj(r2), 1 if r2 == sp else 0, 1
+            # every stored coordinate of the result lies inside its fiber's active range
+            def inside(f):
+                lo, hi = f.getActive()
+                ok = all(lo <= c < hi for c in f.coords)
+                return ok and all(inside(p) for p in f.payloads if hasattr(p, "coords"))
+            out["active_ok"] = 1 if (inside(r.getRoot()) and inside(r2.getRoot())) else 0
         elif op == "updcoords":
             r = t.updateCoords(COORD_FN[out["fn"]], depth=d)
             out["res"] = pj(r)
